@@ -485,11 +485,13 @@ func embeddable(t, outer types.Type, depth int) bool {
 }
 
 // aliasFacts: a *T cannot point into a backing array whose element type cannot contain a T.
-func (u *Unit) aliasFacts(nAssume int) []*Term {
+func (u *Unit) aliasFacts(nAssume int) []*Term { return u.aliasFactsFor(u.ptrFacts, nAssume) }
+
+func (u *Unit) aliasFactsFor(pfs []ptrFact, nAssume int) []*Term {
 	c := u.c
 	var out []*Term
 	memo := map[string]bool{}
-	for _, pf := range u.ptrFacts {
+	for _, pf := range pfs {
 		if pf.at > nAssume || pf.x.open {
 			continue
 		}
